@@ -89,8 +89,12 @@ def main(argv=None):
     baseline = json.loads(bl_path.read_text()) if bl_path.exists() else {}
     present = sorted({o["oid"] for o in obligations} | {b["bid"] for b in bounded})
     if args.update_baseline and not args.only and str(core.REPO) == "/repo":
-        baseline[f"{prop}.{args.tier}"] = present
-        bl_path.write_text(json.dumps(baseline, indent=1, sort_keys=True) + "\n")
+        import fcntl
+        with open(str(bl_path) + ".lock", "w") as lk:        # several checks may update their own key at once
+            fcntl.flock(lk, fcntl.LOCK_EX)
+            baseline = json.loads(bl_path.read_text()) if bl_path.exists() else {}
+            baseline[f"{prop}.{args.tier}"] = present
+            bl_path.write_text(json.dumps(baseline, indent=1, sort_keys=True) + "\n")
     missing = []
     if not args.only:
         missing = sorted(set(baseline.get(f"{prop}.{args.tier}", [])) - set(present))
